@@ -50,7 +50,7 @@ class E3:
         st = St()
         CS, MS, G, N = [Lin.sym(x) for x in ("CS0", "MS0", "G0", "N0")]
         UM = Lin.sym("UM")
-        st.num.add(ge(UM, 0))
+        st.num.add(ge(UM, 65535))        # usize has at least 16 bits
         for s in (CS, MS, G, N):
             st.num.add(ge(s, 0))
             st.num.add(le(s, UM))
